@@ -130,6 +130,9 @@ func (g *grownRoom) add(e roomEvent, ts int64, idTag int) bool {
 	if e.PUD == nil {
 		e.PUD = intp(-1) // always logged: StateRes_trace.tla reads it from every event
 	}
+	if e.Spell == "" {
+		e.Spell = "int" // always logged, too
+	}
 	var realID string
 	switch {
 	case isDomainless(g.ver) || !isFormatV1(g.ver):
@@ -226,6 +229,16 @@ func growRoom(rng *rand.Rand, ver string, roomNo int, free int, tw *traceWriter,
 	if !isDomainless(ver) {
 		initPL["creator"] = 4
 	}
+	// how the room's power-levels events write their levels: in room versions 1-9 (which read strings and floats as
+	// the integers they spell) half of the rooms have a writer of strings / padded strings / floats; a later
+	// power-levels event keeps that spelling or (one in three) is written with integers
+	roomSpell := "int"
+	if (ver == "1" || ver == "2" || ver == "6") && rng.Intn(2) == 0 {
+		roomSpell = []string{"str", "strpad", "float", "frac"}[rng.Intn(4)]
+		if ver == "6" {
+			roomSpell = []string{"str", "strpad"}[rng.Intn(2)] // canonical JSON (versions 6+) has no floats
+		}
+	}
 	// creation prefix, as in Room.tla
 	mustAdd := func(e roomEvent) {
 		if !g.add(e, 1, tag()) {
@@ -253,7 +266,7 @@ func growRoom(rng *rand.Rand, ver string, roomNo int, free int, tw *traceWriter,
 	case 1:
 		initPUD = 4
 	}
-	mustAdd(roomEvent{Type: "pl", Sender: "creator", PLU: initPL, PUD: intp(initPUD), Prev: []int{2}, Auth: []int{1, 2}, Depth: 3})
+	mustAdd(roomEvent{Type: "pl", Sender: "creator", PLU: initPL, PUD: intp(initPUD), Spell: roomSpell, Prev: []int{2}, Auth: []int{1, 2}, Depth: 3})
 	mustAdd(roomEvent{Type: "jr", Sender: "creator", JR: "public", PLU: noUsers(), Prev: []int{3}, Auth: []int{1, 2, 3}, Depth: 4})
 	mustAdd(roomEvent{Type: "member", Sender: "alice", SKey: "alice", Membership: "join", PLU: noUsers(), Prev: []int{4}, Auth: []int{1, 3, 4}, Depth: 5})
 	mustAdd(roomEvent{Type: "member", Sender: "bob", SKey: "bob", Membership: "join", PLU: noUsers(), Prev: []int{5}, Auth: []int{1, 3, 4}, Depth: 6})
@@ -321,6 +334,10 @@ func growRoom(rng *rand.Rand, ver string, roomNo int, free int, tw *traceWriter,
 			}
 			e.PLU = cur
 			e.PUD = intp(pud)
+			e.Spell = roomSpell
+			if roomSpell != "int" && rng.Intn(3) == 0 {
+				e.Spell = "int"
+			}
 			if rng.Intn(5) == 0 {
 				e.SKey = "x" // a power-levels event under a non-empty state key: an ordinary entry of the state map
 			}
